@@ -169,6 +169,19 @@ def rule_impl(job):
                 kw['tag'] = tag
                 return Vw(**kw)
 
+            if case.get('decoy_head'):
+                # ANOTHER rule written earlier in the same process whose head gives the same fields constants that are
+                # EQUAL to this rule's constants but different values (0 / False, 1 / True / 1.0): nothing of it may
+                # show in this rule's instances
+                twin_ = {0: False, 1: True, 2: 2.0}
+                with rule_mode():
+                    dkw = {}
+                    for i, t in enumerate(nargs_.get(case['rule']['tag'], case['args'])):
+                        if t[0] == 'lit' and t[1][0] in ('i', 'b'):
+                            v_ = b.decode(t[1])
+                            dkw[f'f{i}'] = twin_.get(v_, v_) if type(v_) is int else int(v_)
+                    if dkw:
+                        infer(entity(Vw(tag=True if case['rule']['tag'] == 1 else float(case['rule']['tag']), **dkw)))
             if case.get('direct_head'):
                 # C11's own form: infer(entity(T(f1=e1, ...), conditions)) written in rule mode
                 with rule_mode():
@@ -568,6 +581,8 @@ def c11(report, rng, tier, findings):
             case['pre_take'] = rng.randint(1, 3)
         if rng.random() < 0.15:
             case['falsy_head'] = rng.choice(('len', 'bool'))
+        if rng.random() < 0.3:
+            case['decoy_head'] = True
         cases.append(case)
     report.rule = ("random rules infer(entity(T(f=e, ...), body)) over 1-2 variables: heads with variables, attribute expressions "
                    "(object-valued and value-valued, falsy values included) and constants as arguments in any order, every variable "
